@@ -476,7 +476,8 @@ class C19(core.Check):
                 return out
             i, j, k = case["delete"]
             gone = f"{i}.{j}.{k}~{i}.{j}.{k + 1}"
-            if impl["deleted"] != [o for o in allops if o != gone]:
+            left = impl["deleted"]
+            if not isinstance(left, list) or sorted(left) != sorted(o for o in allops if o != gone):
                 out.append(
                     {
                         "site": "Mesh.delete:stack-operation:wrong-blocks-left",
